@@ -22,7 +22,7 @@ CONSTANTS
     Reqs,           \* set of request ids
     Catalog(_),     \* request id -> set of possible requests [kind : {"att","atts","prop","gen"}, ents : Seq([k, s, t, slot, root])]
                     \* (a singleton in exhaustive configurations; a large set for behaviour generation)
-    MaxCrashes, MaxFaults,
+    MaxCrashes, MaxFaults, MaxCloses,
     LockMode,       \* "all" (shipped) | "first" (only the first key is locked) | "none"
     UsePreLock,     \* FALSE: no locker-wide mutex around the locking loop
     DupCheck,       \* FALSE: repeated keys in one request are not refused
@@ -44,9 +44,10 @@ VARIABLES
     released,   \* set of messages whose signature left the process (ghost; survives Crash)
     order,      \* sequence of requests in the order of their Check step (ghost, linearization order)
     faulted,    \* set of <<r, i>> entries (i = 0: whole request) hit by a fault (ghost)
-    crashes, faults
+    crashes, faults,
+    closed      \* the slashing database has been closed (shutdown has begun): reads and writes fail from now on
 
-vars == <<def, disk, mapLock, holder, pc, idx, loc, res, nxt, sigs, released, order, faulted, crashes, faults>>
+vars == <<def, disk, mapLock, holder, pc, idx, loc, res, nxt, sigs, released, order, faulted, crashes, faults, closed>>
 
 None == "none"
 N(r) == Len(def[r].ents)
@@ -78,6 +79,7 @@ Init ==
     /\ order = <<>>
     /\ faulted = {}
     /\ crashes = 0 /\ faults = 0
+    /\ closed = FALSE
 
 Goto(r, l) == pc' = [pc EXCEPT ![r] = l]
 CanFault == faults < MaxFaults
@@ -86,7 +88,7 @@ CanFault == faults < MaxFaults
 Choose(r) ==
     /\ def[r] = Unchosen
     /\ \E d \in Catalog(r) : def' = [def EXCEPT ![r] = d]
-    /\ UNCHANGED <<disk, mapLock, holder, pc, idx, loc, res, nxt, sigs, released, order, faulted, crashes, faults>>
+    /\ UNCHANGED <<disk, mapLock, holder, pc, idx, loc, res, nxt, sigs, released, order, faulted, crashes, faults, closed>>
 
 Invoke(r) ==
     /\ pc[r] = "idle" /\ def[r] # Unchosen
@@ -94,7 +96,7 @@ Invoke(r) ==
     /\ loc' = [loc EXCEPT ![r] = Fill(r, NoRec)]
     /\ res' = [res EXCEPT ![r] = Fill(r, "UNKNOWN")]
     /\ nxt' = [nxt EXCEPT ![r] = Fill(r, NoRec)]
-    /\ UNCHANGED <<def, disk, mapLock, holder, idx, sigs, released, order, faulted, crashes, faults>>
+    /\ UNCHANGED <<def, disk, mapLock, holder, idx, sigs, released, order, faulted, crashes, faults, closed>>
 
 PreCheckFail(r) ==      \* any precheck dependency fails: the request is answered without reaching the ruler
     /\ pc[r] = "idle" /\ CanFault /\ def[r] # Unchosen
@@ -102,7 +104,7 @@ PreCheckFail(r) ==      \* any precheck dependency fails: the request is answere
     /\ faulted' = faulted \cup {<<r, 0>>}
     /\ res' = [res EXCEPT ![r] = Fill(r, "FAILED")]
     /\ Goto(r, "reply")
-    /\ UNCHANGED <<def, disk, mapLock, holder, idx, loc, nxt, sigs, released, order, crashes>>
+    /\ UNCHANGED <<def, disk, mapLock, holder, idx, loc, nxt, sigs, released, order, crashes, closed>>
 
 (* ---- ruler: duplicate-key validation (runner.go:60-81) ---- *)
 Validate(r) ==
@@ -113,14 +115,14 @@ Validate(r) ==
          ELSE /\ Goto(r, IF UsePreLock /\ LockMode # "none" THEN "prelock" ELSE "lock")
               /\ UNCHANGED res
     /\ idx' = [idx EXCEPT ![r] = 1]
-    /\ UNCHANGED <<def, disk, mapLock, holder, loc, nxt, sigs, released, order, faulted, crashes, faults>>
+    /\ UNCHANGED <<def, disk, mapLock, holder, loc, nxt, sigs, released, order, faulted, crashes, faults, closed>>
 
 (* ---- locking (runner.go:82-94, syncmap) ---- *)
 PreLock(r) ==
     /\ pc[r] = "prelock" /\ mapLock = None
     /\ mapLock' = r
     /\ Goto(r, "lock")
-    /\ UNCHANGED <<def, disk, holder, idx, loc, res, nxt, sigs, released, order, faulted, crashes, faults>>
+    /\ UNCHANGED <<def, disk, holder, idx, loc, res, nxt, sigs, released, order, faulted, crashes, faults, closed>>
 
 LockNext(r) ==
     /\ pc[r] = "lock"
@@ -129,7 +131,7 @@ LockNext(r) ==
          /\ holder[k] = None          \* sync.Mutex is not re-entrant: a second Lock by the holder blocks too
          /\ holder' = [holder EXCEPT ![k] = r]
     /\ idx' = [idx EXCEPT ![r] = idx[r] + 1]
-    /\ UNCHANGED <<def, disk, mapLock, pc, loc, res, nxt, sigs, released, order, faulted, crashes, faults>>
+    /\ UNCHANGED <<def, disk, mapLock, pc, loc, res, nxt, sigs, released, order, faulted, crashes, faults, closed>>
 
 PostLock(r) ==
     /\ pc[r] = "lock"
@@ -137,15 +139,15 @@ PostLock(r) ==
     /\ mapLock' = IF mapLock = r THEN None ELSE mapLock
     /\ idx' = [idx EXCEPT ![r] = 1]
     /\ Goto(r, IF StoreBeforeSign THEN "fetch" ELSE "fetch")
-    /\ UNCHANGED <<def, disk, holder, loc, res, nxt, sigs, released, order, faulted, crashes, faults>>
+    /\ UNCHANGED <<def, disk, holder, loc, res, nxt, sigs, released, order, faulted, crashes, faults, closed>>
 
 (* ---- rules: fetch the record(s) (storage.go Fetch) ---- *)
 Fetch(r) ==
-    /\ pc[r] = "fetch"
+    /\ pc[r] = "fetch" /\ ~closed
     /\ idx[r] <= N(r)
     /\ loc' = [loc EXCEPT ![r][idx[r]] = disk[Ent(r, idx[r]).k]]
     /\ idx' = [idx EXCEPT ![r] = idx[r] + 1]
-    /\ UNCHANGED <<def, disk, mapLock, holder, pc, res, nxt, sigs, released, order, faulted, crashes, faults>>
+    /\ UNCHANGED <<def, disk, mapLock, holder, pc, res, nxt, sigs, released, order, faulted, crashes, faults, closed>>
 
 FetchFail(r) ==         \* read error or undecodable record: the whole request FAILED, nothing stored
     /\ pc[r] = "fetch" /\ idx[r] <= N(r) /\ CanFault /\ Kind(r) # "gen"
@@ -153,7 +155,15 @@ FetchFail(r) ==         \* read error or undecodable record: the whole request F
     /\ faulted' = faulted \cup {<<r, 0>>}
     /\ res' = [res EXCEPT ![r] = Fill(r, "FAILED")]
     /\ Goto(r, "unlock")
-    /\ UNCHANGED <<def, disk, mapLock, holder, idx, loc, nxt, sigs, released, order, crashes>>
+    /\ UNCHANGED <<def, disk, mapLock, holder, idx, loc, nxt, sigs, released, order, crashes, closed>>
+
+\* the database was closed under the request (shutdown): the read fails, the whole request FAILED
+FetchClosed(r) ==
+    /\ pc[r] = "fetch" /\ idx[r] <= N(r) /\ closed /\ Kind(r) # "gen"
+    /\ faulted' = faulted \cup {<<r, 0>>}
+    /\ res' = [res EXCEPT ![r] = Fill(r, "FAILED")]
+    /\ Goto(r, "unlock")
+    /\ UNCHANGED <<def, disk, mapLock, holder, idx, loc, nxt, sigs, released, order, crashes, faults, closed>>
 
 (* ---- rules: evaluate (pure) ---- *)
 EntRes(r, i) ==
@@ -175,7 +185,7 @@ Check(r) ==
     /\ order' = Append(order, r)
     /\ idx' = [idx EXCEPT ![r] = 1]
     /\ Goto(r, IF Kind(r) = "gen" THEN "unlock" ELSE IF UnlockEarly THEN "unlockE" ELSE "store")
-    /\ UNCHANGED <<def, disk, mapLock, holder, loc, sigs, released, faulted, crashes, faults>>
+    /\ UNCHANGED <<def, disk, mapLock, holder, loc, sigs, released, faulted, crashes, faults, closed>>
 
 (* ---- rules: store.  Single requests store only when approved (one Store); batches store every entry *)
 (* (BatchStore, modelled entry by entry, i.e. weaker than badger's write batch).                      *)
@@ -185,11 +195,12 @@ MergeRec(old, new, r) == IF Kind(r) = "prop" THEN [old EXCEPT !.ps = new.ps] ELS
 Store(r) ==
     /\ pc[r] = "store"
     /\ idx[r] <= N(r)
+    /\ (~closed \/ ~NeedsStore(r, idx[r]))
     /\ disk' = IF NeedsStore(r, idx[r])
                  THEN [disk EXCEPT ![Ent(r, idx[r]).k] = MergeRec(@, nxt[r][idx[r]], r)]
                  ELSE disk
     /\ idx' = [idx EXCEPT ![r] = idx[r] + 1]
-    /\ UNCHANGED <<def, mapLock, holder, pc, loc, res, nxt, sigs, released, order, faulted, crashes, faults>>
+    /\ UNCHANGED <<def, mapLock, holder, pc, loc, res, nxt, sigs, released, order, faulted, crashes, faults, closed>>
 
 StoreFail(r) ==         \* write error: the whole request FAILED (unless the mutant ignores it)
     /\ pc[r] = "store" /\ idx[r] <= N(r) /\ CanFault
@@ -199,14 +210,23 @@ StoreFail(r) ==         \* write error: the whole request FAILED (unless the mut
     /\ res' = IF FaultIgnored THEN res ELSE [res EXCEPT ![r] = Fill(r, "FAILED")]
     /\ idx' = [idx EXCEPT ![r] = 1]
     /\ Goto(r, IF UnlockEarly THEN "sign" ELSE "unlock")
-    /\ UNCHANGED <<def, disk, mapLock, holder, loc, nxt, sigs, released, order, crashes>>
+    /\ UNCHANGED <<def, disk, mapLock, holder, loc, nxt, sigs, released, order, crashes, closed>>
+
+StoreClosed(r) ==      \* the database was closed between the read and the write
+    /\ pc[r] = "store" /\ idx[r] <= N(r) /\ closed
+    /\ \E i \in idx[r] .. N(r) : NeedsStore(r, i)
+    /\ faulted' = faulted \cup {<<r, 0>>}
+    /\ res' = [res EXCEPT ![r] = Fill(r, "FAILED")]
+    /\ idx' = [idx EXCEPT ![r] = 1]
+    /\ Goto(r, "unlock")
+    /\ UNCHANGED <<def, disk, mapLock, holder, loc, nxt, sigs, released, order, crashes, faults, closed>>
 
 StoreDone(r) ==
     /\ pc[r] = "store"
     /\ idx[r] > N(r)
     /\ idx' = [idx EXCEPT ![r] = 1]
     /\ Goto(r, IF UnlockEarly THEN "sign" ELSE "unlock")
-    /\ UNCHANGED <<def, disk, mapLock, holder, loc, res, nxt, sigs, released, order, faulted, crashes, faults>>
+    /\ UNCHANGED <<def, disk, mapLock, holder, loc, res, nxt, sigs, released, order, faulted, crashes, faults, closed>>
 
 (* ---- deferred unlocks when RunRules returns ---- *)
 Unlock(r) ==
@@ -215,7 +235,7 @@ Unlock(r) ==
     /\ mapLock' = IF mapLock = r THEN None ELSE mapLock
     /\ idx' = [idx EXCEPT ![r] = 1]
     /\ Goto(r, IF pc[r] = "unlockE" THEN "store" ELSE "sign")
-    /\ UNCHANGED <<def, disk, loc, res, nxt, sigs, released, order, faulted, crashes, faults>>
+    /\ UNCHANGED <<def, disk, loc, res, nxt, sigs, released, order, faulted, crashes, faults, closed>>
 
 (* ---- signer: sign approved entries, one by one ---- *)
 Sign(r) ==
@@ -223,7 +243,7 @@ Sign(r) ==
     /\ idx[r] <= N(r)
     /\ sigs' = IF res[r][idx[r]] = "APPROVED" THEN [sigs EXCEPT ![r] = @ \cup {idx[r]}] ELSE sigs
     /\ idx' = [idx EXCEPT ![r] = idx[r] + 1]
-    /\ UNCHANGED <<def, disk, mapLock, holder, pc, loc, res, nxt, released, order, faulted, crashes, faults>>
+    /\ UNCHANGED <<def, disk, mapLock, holder, pc, loc, res, nxt, released, order, faulted, crashes, faults, closed>>
 
 SignFail(r) ==          \* hashing or signing fails for one entry: that entry FAILED
     /\ pc[r] = "sign" /\ idx[r] <= N(r) /\ CanFault
@@ -232,7 +252,7 @@ SignFail(r) ==          \* hashing or signing fails for one entry: that entry FA
     /\ faulted' = faulted \cup {<<r, idx[r]>>}
     /\ res' = [res EXCEPT ![r][idx[r]] = "FAILED"]
     /\ idx' = [idx EXCEPT ![r] = idx[r] + 1]
-    /\ UNCHANGED <<def, disk, mapLock, holder, pc, loc, nxt, sigs, released, order, crashes>>
+    /\ UNCHANGED <<def, disk, mapLock, holder, pc, loc, nxt, sigs, released, order, crashes, closed>>
 
 Msg(r, i) == LET e == Ent(r, i) IN
     IF Kind(r) = "prop" THEN [k |-> e.k, kind |-> "prop", s |-> -1, t |-> -1, slot |-> e.slot, root |-> e.root]
@@ -244,7 +264,7 @@ Reply(r) ==
        \/ pc[r] = "reply"
     /\ released' = released \cup {Msg(r, i) : i \in sigs[r]}
     /\ Goto(r, "done")
-    /\ UNCHANGED <<def, disk, mapLock, holder, idx, loc, res, nxt, sigs, order, faulted, crashes, faults>>
+    /\ UNCHANGED <<def, disk, mapLock, holder, idx, loc, res, nxt, sigs, order, faulted, crashes, faults, closed>>
 
 (* ---- variant: sign first, store afterwards (mutant StoreBeforeSign = FALSE) is expressed by     *)
 (* releasing at Check time: the signature may leave before the record is on disk.                  *)
@@ -255,7 +275,7 @@ EarlySign(r) ==
     /\ \E i \in 1 .. N(r) : res[r][i] = "APPROVED"
     /\ sigs' = [sigs EXCEPT ![r] = {i \in 1 .. N(r) : res[r][i] = "APPROVED"}]
     /\ released' = released \cup {Msg(r, i) : i \in {j \in 1 .. N(r) : res[r][j] = "APPROVED"}}
-    /\ UNCHANGED <<def, disk, mapLock, holder, pc, idx, loc, res, nxt, order, faulted, crashes, faults>>
+    /\ UNCHANGED <<def, disk, mapLock, holder, pc, idx, loc, res, nxt, order, faulted, crashes, faults, closed>>
 
 (* ---- kill -9 and restart on the same directory ---- *)
 Live(r) == pc[r] \notin {"idle", "done", "dead"}
@@ -266,16 +286,23 @@ Crash ==
     /\ pc' = [r \in Reqs |-> IF Live(r) THEN "dead" ELSE pc[r]]
     /\ mapLock' = None
     /\ holder' = [k \in Keys |-> None]
+    /\ closed' = FALSE           \* the restarted process opens the database again
     /\ UNCHANGED <<def, disk, idx, loc, res, nxt, sigs, released, order, faulted, faults>>
 
+\* shutdown begins: the store is closed while requests may be in flight (MaxCloses = 0 switches it off)
+CloseStore ==
+    /\ MaxCloses > 0 /\ ~closed
+    /\ closed' = TRUE
+    /\ UNCHANGED <<def, disk, mapLock, holder, pc, idx, loc, res, nxt, sigs, released, order, faulted, crashes, faults>>
+
 Step(r) == \/ Choose(r) \/ Invoke(r) \/ PreCheckFail(r) \/ Validate(r) \/ PreLock(r) \/ LockNext(r) \/ PostLock(r)
-           \/ Fetch(r) \/ FetchFail(r) \/ Check(r) \/ Store(r) \/ StoreFail(r) \/ StoreDone(r)
+           \/ Fetch(r) \/ FetchFail(r) \/ FetchClosed(r) \/ Check(r) \/ Store(r) \/ StoreFail(r) \/ StoreClosed(r) \/ StoreDone(r)
            \/ Unlock(r) \/ Sign(r) \/ SignFail(r) \/ Reply(r) \/ EarlySign(r)
 
 AllEnded == \A r \in Reqs : pc[r] \in {"done", "dead"}
 Finished == AllEnded /\ UNCHANGED vars
 
-Next == (\E r \in Reqs : Step(r)) \/ Crash \/ Finished
+Next == (\E r \in Reqs : Step(r)) \/ Crash \/ CloseStore \/ Finished
 Spec == Init /\ [][Next]_vars
 FairSpec == Spec /\ \A r \in Reqs : WF_vars(Step(r))
 
@@ -327,7 +354,7 @@ SeqRun(d, seq) == IF seq = <<>> THEN [disk |-> d, res |-> <<>>]
                            rest == SeqRun(a.disk, Tail(seq))
                        IN [disk |-> rest.disk, res |-> <<a.res>> \o rest.res]
 Linearizable ==
-    (AllEnded /\ crashes = 0 /\ faults = 0) =>
+    (AllEnded /\ crashes = 0 /\ faults = 0 /\ ~closed) =>
         LET run == SeqRun([k \in Keys |-> NoRec], order) IN
         /\ run.disk = disk
         /\ \A p \in 1 .. Len(order) : res[order[p]] = run.res[p]
